@@ -8,3 +8,8 @@ import XProofs.Properties.C13
 #print axioms Properties.C13.C13_equivalent_function_tasks
 #print axioms Properties.C13.C13_equivalent_function_tasks_decided
 #print axioms Properties.C13.C13_single_argument_function_tasks
+#print axioms Properties.C13.C13_single_argument_function_tasks_indep
+#print axioms Properties.C13.C13_manager_completes_implies_generated_completes
+#print axioms Properties.C13.C13_manager_completes_implies_generated_completes_decided
+#print axioms Properties.C13.C13_converse_fails_witness
+#print axioms Properties.C13.C13_converse_fails
